@@ -156,8 +156,14 @@ func (x *Exec) bindPhiName(fr *Frame, phi *ssa.Phi, v Value) {
 	}
 	if phi.Comment == "rangeindex" {
 		if tv, ok := v.(TV); ok {
-			// $i: number of elements already processed
+			// $i: number of elements already processed (innermost range loop entered last);
+			// $i<k>: the same for the range loop with ordinal k, so that an inner invariant can name the outer progress
 			fr.names["$i"] = TV{T: app("+", tv.T, "1"), Ty: tv.Ty}
+			if li := x.loops(fr.fn); li != nil {
+				if k, ok := li.ord[phi.Block()]; ok {
+					fr.names[fmt.Sprintf("$i%d", k)] = TV{T: app("+", tv.T, "1"), Ty: tv.Ty}
+				}
+			}
 		}
 		return
 	}
